@@ -33,6 +33,7 @@ type Config struct {
 	ReadOnly    bool   `json:"ro,omitempty"`
 	NoWriteOps  bool   `json:"nowrite,omitempty"` // like `serve http`: writeOps=nil, getFileBuffer=nil
 	KeySet      int    `json:"keyset,omitempty"`  // which key set to use for reading (1 = the wrong one)
+	Overwrite   bool   `json:"overwrite,omitempty"` // TapeManager constructed with overwrite=true (explicit overwrite on first use)
 }
 
 func (c Config) String() string {
@@ -42,6 +43,9 @@ func (c Config) String() string {
 	}
 	if c.NoWriteOps {
 		s += " nowrite"
+	}
+	if c.Overwrite {
+		s += " overwrite-manager"
 	}
 	return s
 }
@@ -366,7 +370,7 @@ func NewStack(dir string, cfg Config, keys *Keys) (*Stack, error) {
 	}
 
 	mt := mtio.MagneticTapeIO{}
-	s.TM = tape.NewTapeManager(s.Drive, mt, cfg.RecordSize, false)
+	s.TM = tape.NewTapeManager(s.Drive, mt, cfg.RecordSize, cfg.Overwrite)
 	s.MP = persisters.NewMetadataPersister(s.Index)
 	if err := s.MP.Open(); err != nil {
 		return nil, fmt.Errorf("persister open: %w", err)
